@@ -40,6 +40,7 @@ type Case struct {
 	Mode    string          `json:"mode"`
 	Pos     int             `json:"pos"`
 	Text    string          `json:"text"`
+	Toks    []string        `json:"toks"`
 }
 
 // trees decodes a field that is either one tree or a sequence of trees (file body).
@@ -386,6 +387,28 @@ func runC08(tw *TraceWriter, id int, c *Case) {
 	}
 }
 
+// runGoMini: the documented translation of a mini-AST (built by the specification) is rendered by the real
+// library; its token stream must be the token stream the specification's independent unparser wrote.
+func runGoMini(tw *TraceWriter, id int, c *Case) {
+	rv, _ := renderBody([]*Node{c.Tree}, true, nil)
+	toks := CodeTokens(rv.out)
+	if len(toks) >= 3 && toks[0] == "package" {
+		toks = toks[3:]
+	}
+	norm := []string{}
+	for i, t := range toks {
+		if t == ";" && (i == len(toks)-1 || toks[i+1] == "}" || toks[i+1] == ")") {
+			continue
+		}
+		norm = append(norm, t)
+	}
+	tw.Emit(Rec{"ev": "gomini", "id": id, "tree": c.Tree, "toks": c.Toks, "rtoks": norm, "rv": resRec(rv, rv)})
+	tw.Distinct("nontrivial_cases", fmt.Sprint(c.Toks))
+	if id <= 3 {
+		tw.Sample(Rec{"program_tokens": c.Toks, "raw": string(rv.out)})
+	}
+}
+
 func cmdCases(args []string) {
 	// usage: cases <out.ndjson> <stats.json> <cases.ndjson>... [--repeats n]
 	tw := NewTraceWriter(args[0])
@@ -416,6 +439,8 @@ func cmdCases(args []string) {
 				runC15(tw, id, &c)
 			case "c08":
 				runC08(tw, id, &c)
+			case "gomini":
+				runGoMini(tw, id, &c)
 			default:
 				fatal("unknown case kind " + c.Kind)
 			}
